@@ -11,6 +11,10 @@ import (
 	"github.com/prometheus/prometheus/storage"
 )
 
+// lookbackDeltaMs is the lookback delta of the PromQL engine the router builds (promql.EngineOpts.LookbackDelta: 0
+// selects the default of 5 minutes): an instant selector evaluated at t reads the latest sample of [t - 5 min, t].
+const lookbackDeltaMs = 5 * 60 * 1000
+
 type TranspileResponse struct {
 	MapResult func(samples []model.Sample) []model.Sample
 	Query     sql.ISelect
@@ -48,23 +52,28 @@ func processHints(query sql.ISelect, hints *storage.SelectHints) sql.ISelect {
 		"count_over_time": true, "stddev_over_time": true, "stdvar_over_time": true, "last_over_time": true,
 		"present_over_time": true, "delta": true, "increase": true, "avg_over_time": true,
 	}
-	// not "timestamp": it reads the time of the sample, which the per-step aggregation below moves to the end of the step
-	if instantVectors[hints.Func] || hints.Func == "" {
+	// For an instant selector hints.Start is the first evaluation time minus the lookback delta of the engine
+	// (minus the offset). When the step divides the lookback delta every evaluation time is the end of a step
+	// bucket (Start+(k-1)*Step, Start+k*Step], and the sample the engine's lookback selects at such a time is the
+	// last sample of its bucket: only that sample is sent, with its own time. For any other step the buckets do
+	// not line up with the evaluation times and the raw samples are sent.
+	// not "timestamp": it is not in the table, it goes with the raw samples
+	if (instantVectors[hints.Func] || hints.Func == "") && hints.Range == 0 && lookbackDeltaMs%hints.Step == 0 {
 		withQuery := sql.NewWith(query, "spls")
 		query = sql.NewSelect().With(withQuery).Select(
 			sql.NewRawObject("fingerprint"),
 			//sql.NewSimpleCol("spls.labels", "labels"),
 			sql.NewSimpleCol("argMax(spls.value, spls.timestamp_ms)", "value"),
-			sql.NewSimpleCol(fmt.Sprintf("intDiv(spls.timestamp_ms - %d + %d - 1, %d) * %d + %d",
-				hints.Start, hints.Step, hints.Step, hints.Step, hints.Start), "timestamp_ms"),
+			sql.NewSimpleCol("max(spls.timestamp_ms)", "last_ms"),
 		).From(
 			sql.NewWithRef(withQuery),
 		).GroupBy(
-			sql.NewRawObject("timestamp_ms"),
+			sql.NewRawObject(fmt.Sprintf("intDiv(spls.timestamp_ms - %d + %d - 1, %d)",
+				hints.Start, hints.Step, hints.Step)),
 			sql.NewRawObject("fingerprint"),
 		).OrderBy(
 			sql.NewOrderBy(sql.NewRawObject("fingerprint"), sql.ORDER_BY_DIRECTION_ASC),
-			sql.NewOrderBy(sql.NewRawObject("timestamp_ms"), sql.ORDER_BY_DIRECTION_ASC),
+			sql.NewOrderBy(sql.NewRawObject("last_ms"), sql.ORDER_BY_DIRECTION_ASC),
 		)
 	}
 	if rangeVectors[hints.Func] && hints.Range > 0 && hints.Step > hints.Range {
